@@ -26,6 +26,11 @@ const (
 type fsym struct {
 	cls fclass
 	t   *Term // real term (finite only)
+	// fromInt: this float is exactly the conversion of that integer of at
+	// most 32 bits (such conversions are exact in float64); converting it
+	// back to an integer gives that integer again
+	fromInt       *Term
+	fromIntSigned bool
 }
 
 func toFsym(v value) *fsym {
@@ -221,12 +226,26 @@ func fBinop(r *run, op token.Token, x, y value) value {
 // twin returns the real-valued twin of a bit-vector variable (created on
 // demand, unconstrained unless the harness linked it with vLinkReal).  The
 // twin over-approximates the integer by a real in the same range.
-func (r *run) twin(x *Term) *Term {
+func (r *run) twin(x *Term) *Term { return r.twinOf(x, true) }
+
+func (r *run) twinOf(x *Term, signed bool) *Term {
 	if t, ok := r.twins[x]; ok {
 		return t
 	}
 	t := r.fresh("twin_"+x.Name, "real", realSort)
 	r.twins[x] = t
+	if x.Op == "var" {
+		// exact link, used only to refine a counterexample into one whose
+		// integers and reals agree (so that it replays natively)
+		w := x.S.W
+		lo, hi := "0.0", fmt.Sprintf("%s.0", new(big.Int).Lsh(big.NewInt(1), uint(w)).String())
+		if signed {
+			h := new(big.Int).Lsh(big.NewInt(1), uint(w-1)).String()
+			lo, hi = "(- "+h+".0)", h+".0"
+		}
+		r.sol.links = append(r.sol.links, fmt.Sprintf("(and (= %s (to_real (to_int %s))) (<= %s %s) (< %s %s) (= %s ((_ int2bv %d) (to_int %s))))",
+			t.Name, t.Name, lo, t.Name, t.Name, hi, x.Name, w, t.Name))
+	}
 	// cheap integrality: an integer is 0 or at least 1 in magnitude
 	zero := mkReal(new(big.Rat))
 	one := mkReal(big.NewRat(1, 1))
@@ -246,7 +265,11 @@ func intToFloat(r *run, x *Term, signed bool) value {
 		// a computed integer: give it an unconstrained twin (over-approximation)
 		r.note("int->float conversion of a computed symbolic integer over-approximated by an arbitrary real")
 	}
-	return &fsym{cls: fFinite, t: r.fround(r.twin(x))}
+	f := &fsym{cls: fFinite, t: r.fround(r.twinOf(x, signed))}
+	if x.S.W <= 32 {
+		f.fromInt, f.fromIntSigned = x, signed
+	}
+	return f
 }
 
 func floatToInt(r *run, x value, w int, signed bool) value {
@@ -262,6 +285,20 @@ func floatToInt(r *run, x value, w int, signed bool) value {
 		return mkBV(w, uint64(ff))
 	}
 	fs := x.(*fsym)
+	if fs.fromInt != nil && fs.cls == fFinite {
+		// exact round trip of a small integer (value preserved when it fits;
+		// an unsigned source of at most 32 bits always fits a wider target,
+		// and a narrower target sees Go's conversion of the integer part)
+		src := fs.fromInt
+		switch {
+		case src.S.W == w:
+			if fs.fromIntSigned == signed || !fs.fromIntSigned {
+				return src
+			}
+		case src.S.W < w:
+			return bvResize(src, w, fs.fromIntSigned)
+		}
+	}
 	// Go leaves out-of-range conversions implementation-defined (amd64 yields
 	// the minimum integer); recorded as a fact of the path.
 	if fs.cls != fFinite {
@@ -276,7 +313,7 @@ func floatToInt(r *run, x value, w int, signed bool) value {
 	}
 	// truncation toward zero, on the real twin of a fresh integer variable
 	iv := r.fresh("float2int", fmt.Sprintf("i%d", w), bvSort(w))
-	tw := r.twin(iv)
+	tw := r.twinOf(iv, signed)
 	zero := mkReal(new(big.Rat))
 	one := mkReal(big.NewRat(1, 1))
 	pos := mkAnd(realCmp("<=", tw, fs.t), realCmp("<", fs.t, realBin("+", tw, one)))
